@@ -164,7 +164,11 @@ func (p *Path) Compare(actual []Seg, spec []SegSpec) []string {
 		a := actual[i]
 		if s.Bits == nil {
 			// blob; an empty expected blob may be absent
-			if a.Byte != nil || a.Blob != s.Blob || !p.ProveEq(a.Len.Sub(s.Len)) {
+			nameOK := a.Blob == s.Blob
+			if strings.HasSuffix(s.Blob, "*") {
+				nameOK = strings.HasPrefix(a.Blob, strings.TrimSuffix(s.Blob, "*"))
+			}
+			if a.Byte != nil || !nameOK || !p.ProveEq(a.Len.Sub(s.Len)) {
 				if s.Len.IsConst() && s.Len.C == 0 {
 					continue
 				}
